@@ -250,7 +250,7 @@ func H_C07_subquery() {
 // (cte.column) and a three-stage chain.
 func H_C07_shapes() {
 	n := verif.Choose("rows", maxRows(2, 3)+1)
-	form := verif.Choose("form", 7)
+	form := verif.Choose("form", 10)
 	doc, rows := numTable(n, "a", "b")
 	// a document key with the name the CTEs use: the CTE shadows it
 	doc["m"] = []any{Map{"a": float64(100), "b": float64(7)}}
@@ -285,6 +285,16 @@ func H_C07_shapes() {
 	case 6:
 		sql = "SELECT x.a AS a FROM (WITH m AS (SELECT a, b FROM t WHERE a > ?) SELECT a FROM m) x"
 		stagedSQL = "SELECT a FROM m"
+	case 7:
+		// selector forms applied to the (lazily evaluated) CTE
+		sql = "WITH m AS (SELECT a, b FROM t WHERE a > ?) SELECT a FROM `m[(0:1)]`"
+		stagedSQL = "SELECT a FROM `m[(0:1)]`"
+	case 8:
+		sql = "WITH m AS (SELECT a, b FROM t WHERE a > ?) SELECT * FROM `m{a}`"
+		stagedSQL = "SELECT * FROM `m{a}`"
+	case 9:
+		sql = "WITH m AS (SELECT a, b FROM t WHERE a > ?) SELECT b FROM `m[0]`"
+		stagedSQL = "SELECT b FROM `m[0]`"
 	}
 	got, gerr := runQueryQuiet(doc, verif.SQL(sql, c))
 	if form == 1 {
